@@ -16,6 +16,9 @@ import (
 
 const ModulePath = "github.com/scottyw/tetromino"
 
+// RepoDir is the directory the repository sources are read from.
+var RepoDir = "/repo"
+
 // Program is the loaded, type-checked and SSA-built repository.
 type Program struct {
 	Pkgs     []*packages.Package // repository packages only, sorted by path
@@ -31,12 +34,36 @@ type Program struct {
 // replaces the tetromino module by /repo's working tree).
 func Load(dir string, extraPatterns ...string) (*Program, error) {
 	os.Unsetenv("GOWORK")
+	goflags := "GOFLAGS=-mod=mod"
+	// GBCHECK_REPO: analyse a scratch copy of the repository instead of /repo (used by the
+	// thorough tier to confirm that the rules still fire on seeded variants of the CURRENT tree).
+	if alt := os.Getenv("GBCHECK_REPO"); alt != "" {
+		tmp, err := os.MkdirTemp("", "gbcheck-mod")
+		if err != nil {
+			return nil, err
+		}
+		defer os.RemoveAll(tmp)
+		mod, err := os.ReadFile(dir + "/go.mod")
+		if err != nil {
+			return nil, err
+		}
+		ms := strings.ReplaceAll(string(mod), "=> /repo", "=> "+alt)
+		ms = strings.ReplaceAll(ms, "=> ./stubs/", "=> "+dir+"/stubs/")
+		if err := os.WriteFile(tmp+"/go.mod", []byte(ms), 0o644); err != nil {
+			return nil, err
+		}
+		if sum, err := os.ReadFile(dir + "/go.sum"); err == nil {
+			os.WriteFile(tmp+"/go.sum", sum, 0o644)
+		}
+		goflags = "GOFLAGS=-mod=mod -modfile=" + tmp + "/go.mod"
+		RepoDir = alt
+	}
 	cfg := &packages.Config{
 		Mode:  packages.LoadAllSyntax,
 		Dir:   dir,
 		Tests: false,
 		Env: append(os.Environ(),
-			"GOFLAGS=-mod=mod", "GOPROXY=off", "GOSUMDB=off", "GOTOOLCHAIN=local", "GOWORK=off"),
+			goflags, "GOPROXY=off", "GOSUMDB=off", "GOTOOLCHAIN=local", "GOWORK=off"),
 	}
 	patterns := append([]string{ModulePath + "/..."}, extraPatterns...)
 	initial, err := packages.Load(cfg, patterns...)
